@@ -325,6 +325,10 @@ def summarise(prop, tier, seed, fres, jobs, by_id, wall, extra_bounded=None):
                 samples.append({'obligation': j['id'], 'group': '/'.join(j['group']), 'status': 'unsat',
                                 'solver': o['solver'], 'smt2': j['smt2']})
         for label, sts in reach.items():
+            # an exception path that turns out to be infeasible is no sign of vacuity (a library model offered the raise,
+            # the invariants exclude it); only entry / normal return are guarded
+            if label and str(label[-1]).startswith('raise:'):
+                continue
             if not any(s in ('sat', 'sat-nomodel') for s in sts):
                 if all(s == 'unsat' for s in sts):
                     vacuity.append('%s: %s is unreachable (contradictory requires?)' % (fr['key'][1], '/'.join(label)))
